@@ -1,3 +1,211 @@
-(* Handlers for text codecs, searches and engine scripts; extended below. *)
-let handle (line : string) (_kind : string) (_args : string list) (_obs : string) : unit =
-  failwith ("unknown case kind: " ^ line)
+(* Searches (C03, C11, C12, C13): the model search on the model board and the reference minimax on
+   the specification game are evaluated on the configuration the implementation ran. *)
+open Model
+open Common
+open Conv
+
+let split_on c s = String.split_on_char c s
+let trim = String.trim
+let split_str (sep : string) (s : string) : string list = Str.split_delim (Str.regexp_string sep) s
+
+let parse_pos = Dispatch2.parse_pos
+let parse_move = Dispatch2.parse_move
+let move_str = Dispatch2.move_str
+
+let stype_of_int = function 1 -> Heuristic | 2 -> MateInX | 3 -> Inf | 4 -> NegInf | _ -> Invalid
+let int_of_stype = function Invalid -> 0 | Heuristic -> 1 | MateInX -> 2 | Inf -> 3 | NegInf -> 4
+let parse_score (tok : string) : score =
+  match split_on ',' tok with
+  | [t; m; b] -> { sty = stype_of_int (int_of_string t); smate = z_of_int (int_of_string m); sbits = z_of_int (int_of_string b) }
+  | _ -> failwith ("bad score " ^ tok)
+let score_str (s : score) : string = Printf.sprintf "%d,%d,%d" (int_of_stype s.sty) (int_of_z s.smate) (int_of_z s.sbits)
+let pv_str (pv : move list) : string = if pv = [] then "-" else String.concat ";" (List.map move_str pv)
+
+type cfg = { depths : int list; quiet : bool; tt : string; low : score; high : score; cancel : int }
+
+let parse_cfg (toks : string list) : cfg =
+  let get k = let pre = k ^ "=" in
+    match List.find_opt (fun t -> String.length t > String.length pre && String.sub t 0 (String.length pre) = pre) toks with
+    | Some t -> String.sub t (String.length pre) (String.length t - String.length pre)
+    | None -> failwith ("cfg key missing: " ^ k) in
+  { depths = List.map int_of_string (split_on ',' (get "depths")); quiet = (get "q" = "1"); tt = get "tt";
+    low = parse_score (get "low"); high = parse_score (get "high"); cancel = int_of_string (get "cancel") }
+
+let make_tt (spec : string) : ttv =
+  match split_on ':' spec with
+  | ["none"] -> NoTT
+  | ["size"; n] -> (match new_table (n_of_int (int_of_string n)) with Some t -> TableTT t | None -> failwith "tt size")
+  | ["min"; k; n] -> (match new_table (n_of_int (int_of_string n)) with Some t -> MinDepthTT (z_of_int (int_of_string k), t) | None -> failwith "tt size")
+  | _ -> failwith ("bad tt " ^ spec)
+
+let qfuel = nat_of_int 40
+
+let model_leaf (g : gboard) : z = material g
+let spec_leaf (g : gstate) : z = f32_of_int (spec_material_int g)
+
+(* set up the model board and the specification game from the start and the history *)
+let setup (zt : ztable) (p0 : position) (t0 : n) (np : int) (fm : int) (hist : move list) =
+  let (h0, b0) = new_board zt [] p0 t0 (n_of_int np) (z_of_int fm) in
+  let legal = wf_b p0 t0 in
+  let g0 = if legal then Some (g_start (abs_pos p0) (color_of t0) (z_of_int np) (z_of_int fm)) else None in
+  List.fold_left (fun ((h, b), g) m ->
+      let ((h1, b1), _) = push_move zt h b m in
+      ((h1, b1), (match g with Some g -> Some (g_play g (abs_move m)) | None -> None))) ((h0, b0), g0) hist
+
+let run_model (zt : ztable) (c : cfg) (g : gboard) (t : ttv) (depth : int) =
+  let cancel = (fun (n : nat) -> c.cancel >= 0 && int_of_nat n >= c.cancel) in
+  search_board zt (full_exploration) (captures_only) model_leaf cancel c.quiet qfuel g t [] (nat_of_int depth) c.low c.high
+
+let spec_value (c : cfg) (g : gstate) (depth : int) (root : bool) : score =
+  spec_mm (fun _ _ _ -> true) (fun g _ m -> is_capture_move g.g_pos m) spec_leaf c.quiet qfuel (nat_of_int depth) root g
+
+let lt a b = less a b
+let le a b = not (less b a)
+let eqv a b = le a b && le b a
+
+(* the three-case contract of C13 *)
+let contract_ok (a : score) (b : score) (v : score) (r : score) : bool =
+  if lt a v && lt v b then eqv r v
+  else if le v a then le v r && le r a
+  else le b r && le r v
+
+(* C08-style comparison of two implementation observations, result class only *)
+let same_state (o1 : string) (o2 : string) : bool =
+  let f o = List.filteri (fun i _ -> i <> 0 && i <> 9 && i <> 10) (List.filter (fun w -> w <> "") (split_on ' ' o)) in
+  let outcome o = (try List.nth (List.filter (fun w -> w <> "") (split_on ' ' o)) 9 with _ -> "?") in
+  let cls x = if x = "0" || x = "1" then "undecided" else x in
+  f o1 = f o2 && (cls (outcome o1) = cls (outcome o2) || outcome o1 = "0" || outcome o1 = "1")
+
+let pv_check (g : gstate) (c : cfg) (depth : int) (v : score) (pv : move list) : string option =
+  (* legal line from the root, no longer than the depth, first move attains the value *)
+  if List.length pv > depth then Some "principal variation longer than the depth" else
+  let rec walk g l = match l with
+    | [] -> None
+    | m :: r ->
+      let sm = abs_move m in
+      if not (List.exists (fun x -> smove_eqb x sm) (spec_legal g.g_pos g.g_turn)) then Some ("illegal move in the principal variation: " ^ move_str m)
+      else walk (g_play g sm) r in
+  match walk g pv with
+  | Some e -> Some e
+  | None ->
+    (match pv with
+     | [] -> if depth > 0 && spec_legal g.g_pos g.g_turn <> [] then Some "empty principal variation although a legal move exists" else None
+     | m :: _ ->
+       let child = g_play g (abs_move m) in
+       let cv = t (spec_value c child (depth - 1) false) in
+       if eqv cv v then None else Some (Printf.sprintf "first move of the principal variation has value %s, not %s" (score_str cv) (score_str v)))
+
+let handle_absearch line args obs =
+  match args with
+  | zseed :: ptok :: turn :: np :: fm :: htok :: cfgtoks ->
+    let zt = (try Hashtbl.find Dispatch2.zkeys zseed with Not_found -> failwith "zkeys line missing") in
+    let c = parse_cfg cfgtoks in
+    let p0 = parse_pos ptok and t0 = n_of_int (int_of_string turn) in
+    let hist = if htok = "-" then [] else List.map parse_move (split_on ';' htok) in
+    let (g, sg) = setup zt p0 t0 (int_of_string np) (int_of_string fm) hist in
+    (match split_str " || " obs with
+     | [results; before; after] ->
+       let res = List.map trim (split_str " | " results) in
+       if List.length res <> List.length c.depths then failwith "absearch: result count";
+       let full_window = (c.low.sty = NegInf && c.high.sty = Inf) in
+       let tt = ref (make_tt c.tt) in
+       let gcur = ref g in
+       List.iteri (fun i d ->
+           let r = List.nth res i in
+           (match List.filter (fun w -> w <> "") (split_on ' ' r) with
+            | [halted; nodes; sc; pv; polls; _nw; nafter; writes] ->
+              (* model *)
+              let ((((st, mnodes), msc), mpv), mhalted) = run_model zt c !gcur !tt d in
+              gcur := st.s_g; tt := st.s_tt;
+              let mstr = Printf.sprintf "%s %d %s %s %d" (if mhalted then "1" else "0") (int_of_n mnodes) (score_str msc) (pv_str mpv) (int_of_nat st.s_polls) in
+              let istr = Printf.sprintf "%s %s %s %s %s" halted nodes sc pv polls in
+              if mstr <> istr then report_mismatch line (Printf.sprintf "search#%d: %s" i mstr);
+              bump (Printf.sprintf "search/depth%d" d);
+              if c.quiet then bump "search/quiescence";
+              if c.tt <> "none" then bump "search/table";
+              (* specification *)
+              (match sg with
+               | Some sgame when c.cancel < 0 ->
+                 let v = spec_value c sgame d true in
+                 let rsc = parse_score sc in
+                 if v.sty = MateInX || v.sty = Inf || v.sty = NegInf then bump "search/mate-value";
+                 if full_window then begin
+                   bump "search/full-window";
+                   let prop = if c.tt = "none" then "prop=C03" else "prop=C11" in
+                   if not (eqv rsc v) then report_spec ~key:prop line (Printf.sprintf "search#%d depth %d: returned %s, minimax value %s" i d sc (score_str v))
+                   else begin
+                     let pvm = if pv = "-" then [] else List.map parse_move (split_on ';' pv) in
+                     (* with a table a cut-off below the root may shorten the variation; the first move must still be best *)
+                     match pv_check sgame c d v pvm with
+                     | Some e -> report_spec ~key:prop line (Printf.sprintf "search#%d depth %d: %s" i d e)
+                     | None -> ()
+                   end
+                 end else begin
+                   bump "search/window";
+                   if lt c.low c.high && not (contract_ok c.low c.high v rsc) then
+                     report_spec ~key:"prop=C13" line (Printf.sprintf "search#%d depth %d window (%s, %s): returned %s, true value %s" i d (score_str c.low) (score_str c.high) sc (score_str v))
+                 end;
+                 (* exact table entries are true values (history-free positions) *)
+                 if writes <> "-" && hist = [] then
+                   List.iter (fun w ->
+                       match split_on '/' w with
+                       | [wp; wt; wd; ws] ->
+                         let wpos = parse_pos wp and wturn = n_of_int (int_of_string wt) in
+                         if wf_b wpos wturn then begin
+                           bump "tt/exact-write-checked";
+                           let wg = g_start (abs_pos wpos) (color_of wturn) (z_of_int 0) (z_of_int 1) in
+                           let wv = spec_value c wg (int_of_string wd) false in
+                           if not (eqv (parse_score ws) wv) then
+                             report_spec ~key:"prop=C11" line (Printf.sprintf "search#%d: exact entry %s at depth %s stored for a position whose value is %s" i ws wd (score_str wv))
+                         end
+                       | _ -> ()) (split_on ';' writes)
+               | _ -> ());
+              if nafter <> "0" then report_spec ~key:"prop=C12" line (Printf.sprintf "search#%d: %s table writes after cancellation" i nafter)
+            | _ -> failwith ("absearch: bad result " ^ r))) c.depths;
+       if not (same_state before after) then
+         report_spec ~key:"prop=C03" line (Printf.sprintf "board not handed back in the state it was received: before [%s] after [%s]" before after)
+     | _ -> failwith "absearch: bad obs")
+  | _ -> failwith ("bad absearch line: " ^ short line)
+
+(* halt zseed P turn np fm cfg... cancel=n => halted nodes score pv nwrites nafter || before || after || err2 score2 first2 || err3 score3 first3 *)
+let handle_halt line args obs =
+  match args with
+  | zseed :: ptok :: turn :: np :: fm :: rest ->
+    let zt = (try Hashtbl.find Dispatch2.zkeys zseed with Not_found -> failwith "zkeys line missing") in
+    let rest = List.filter (fun t -> t <> "") rest in
+    (* the last cancel= token wins *)
+    let n = (match List.rev (List.filter (fun t -> String.length t > 7 && String.sub t 0 7 = "cancel=") rest) with
+        | t :: _ -> int_of_string (String.sub t 7 (String.length t - 7)) | [] -> failwith "halt: cancel") in
+    let c0 = parse_cfg rest in
+    let c = { c0 with cancel = n } in
+    let p0 = parse_pos ptok and t0 = n_of_int (int_of_string turn) in
+    let (g, _) = setup zt p0 t0 (int_of_string np) (int_of_string fm) [] in
+    (match split_str " || " obs with
+     | [r1; before; after; r2; r3] ->
+       let d = List.hd c.depths in
+       (match List.filter (fun w -> w <> "") (split_on ' ' r1), List.filter (fun w -> w <> "") (split_on ' ' r2), List.filter (fun w -> w <> "") (split_on ' ' r3) with
+        | [halted; nodes; sc; pv; _nw; nafter], [e2; s2; f2], [e3; s3; f3] ->
+          let ((((st, mnodes), msc), mpv), mhalted) = run_model zt c g (make_tt c.tt) d in
+          let mstr = Printf.sprintf "%s %d %s %s" (if mhalted then "1" else "0") (int_of_n mnodes) (score_str msc) (pv_str mpv) in
+          if mstr <> Printf.sprintf "%s %s %s %s" halted nodes sc pv then report_mismatch line ("halted run: " ^ mstr);
+          (* follow-up on the same table, model *)
+          let c2 = { c with cancel = -1 } in
+          let ((((_, _), msc2), mpv2), mh2) = run_model zt c2 st.s_g st.s_tt d in
+          let m2 = Printf.sprintf "%s %s %s" (if mh2 then "1" else "0") (score_str msc2) (match mpv2 with m :: _ -> move_str m | [] -> "-") in
+          if m2 <> Printf.sprintf "%s %s %s" e2 s2 f2 then report_mismatch line ("follow-up run: " ^ m2);
+          bump (if halted = "1" then "halt/halted" else "halt/completed-before-cancel");
+          (* C12 on the implementation *)
+          if halted = "1" && sc <> "0,0,0" then report_spec ~key:"prop=C12" line "halted search returned a score";
+          if not (same_state before after) then report_spec ~key:"prop=C12" line (Printf.sprintf "halted search did not hand the board back: before [%s] after [%s]" before after);
+          if nafter <> "0" then report_spec ~key:"prop=C12" line (Printf.sprintf "%s table writes after cancellation" nafter);
+          if e2 <> e3 || not (eqv (parse_score s2) (parse_score s3)) then
+            report_spec ~key:"prop=C12" line (Printf.sprintf "search after the halted one returned %s, without it %s" s2 s3)
+        | _ -> failwith "halt: bad fields")
+     | _ -> failwith "halt: bad obs")
+  | _ -> failwith ("bad halt line: " ^ short line)
+
+let handle (line : string) (kind : string) (args : string list) (obs : string) : unit =
+  match kind with
+  | "absearch" -> handle_absearch line args obs
+  | "halt" -> handle_halt line args obs
+  | _ -> Dispatch4.handle line kind args obs
